@@ -12,6 +12,7 @@ import z3
 from cxxvc.kernel import Kernel, LoopSpec, Lemma
 from cxxvc.interp import Obj, Ptr, Loc, Opt, Gap, MAX_DT, VOID
 from cxxvc import extract
+from cxxvc.native import NativeCheck
 
 TU = "src/hgraph/runtime/reduce_node.cpp"
 EMPTY, LEAF, NODE = 0, 1, 2
@@ -398,3 +399,52 @@ class RecordRemovedLeafPaths(ReduceKernel):
 
 
 KERNELS += [AppendLeafPath, RecordRemovedLeafPaths]
+
+
+
+# ------------------------------------------------------------------ bounded stand-in: the published value is the fold
+#
+# The kernels above prove which aggregate each combiner input names and which paths are re-evaluated.  That the value the
+# node publishes IS the fold - through rebuild_structure, bind_combiner_inputs, the zero source, the wiring-time fast paths
+# for operator kernels over lists (higher_order_impl.h) - is ops-table and template heavy code outside the interpreter's
+# reach; it is exercised here by running the real reduce_ over enumerated histories and reading its output every cycle.
+
+
+class FoldEnumeration(NativeCheck):
+    kid = "native:c11_fold"
+    property_ids = ("C11",)
+    source = "native/bounded/c11_fold.cpp"
+    title = "at every cycle the reduce output equals the fold of the combiner over exactly the valid elements (zero rules included)"
+    bound_text = ("bounded: every history of H cycles in which each key / list slot is left alone, set to a fresh power of two or "
+                  "(dictionary) removed, replayed into replay -> reduce_(combiner, xs[, zero]) -> observer; the observer reads the "
+                  "output (validity and value) at EVERY cycle; shapes TSD<Int,TS<Int>> (3 keys), fixed TSL of 4, dynamic TSL (3 "
+                  "slots); combiners: a node combiner l+r+100 (every application visible) and the add_ operator kernel (lifted fast "
+                  "path); with and without a zero.  quick: H=2 exhaustive for all 12 configurations (4 196 histories) + H=3 "
+                  "exhaustive for TSD/node (2 x 19 683) and fixed TSL (4 x 4 096) + 1 500 random H=5 histories over 6 keys per "
+                  "TSD / dynamic-TSL configuration (growth over the capacity boundaries 2, 4, 8); thorough: H=3 exhaustive for all "
+                  "configurations, H=4 for fixed and dynamic TSL, 20 000 random H=6 per configuration")
+    functions = ("reduce_node.cpp: rebuild_structure / bind_combiner_inputs / root_aggregate / reduce_evaluate / remove_leaf_at / "
+                 "reconcile_leaf_state (whole node)", "higher_order_impl.h: reduce_ wiring incl. wire_lifted_reduce_tsl fast path",
+                 "reduce_layout (fixed TSL tree)")
+
+    def runs(self, tier):
+        cfgs = [(sh, c, z) for sh in ("tsd", "tsl4", "tsldyn") for c in ("node", "add") for z in ("0", "1")]
+        jobs = []
+        if tier == "thorough":
+            for sh, c, z in cfgs:
+                if sh == "tsd":
+                    jobs += [([sh, c, z, "3"], {"SHARD": "%d/2" % i}) for i in range(2)]
+                else:
+                    jobs += [([sh, c, z, "4"], {})]
+                jobs += [([sh, c, z, "6", "20000", "11"], {})]
+            return jobs
+        for sh, c, z in cfgs:
+            jobs.append(([sh, c, z, "2"], {}))
+            if sh == "tsl4" or (sh == "tsd" and c == "node"):
+                jobs.append(([sh, c, z, "3"], {}))
+            if sh != "tsl4":
+                jobs.append(([sh, c, z, "5", "1500", "7"], {}))
+        return jobs
+
+
+NATIVE = [FoldEnumeration]
